@@ -190,7 +190,7 @@ class DLTypeDimensionExpression:
             msg = "Cannot evaluate an anonymous axis"
             raise ValueError(msg)
 
-        if self.identifier in scope:
+        if self.is_identifier and self.identifier in scope:
             # if the identifier is in the scope, we return the value directly
             # however if we're an anonymous axis, we don't want to
             # return the value directly as the prior scoped value is irrelevant
